@@ -21,7 +21,8 @@ FILES = ['a.c', '', 'x' * 19, 'y' * 20, 'z' * 21, 'src/some/long/path/to/a_file_
 LINES = [0, 1, 27, 46, 65535, 4294967295]
 BIGLINES = [4294967296, 4294967296 + 77, 2 ** 40 + 3]
 SCENARIOS = ['str', 'array', 'llist', 'dlist', 'amap', 'lmap', 'dmap', 'avec', 'lvec', 'dvec', 'mbuff', 'tok',
-             'url', 'objpair', 'split', 'regexp', 'conf', 'socket']
+             'url', 'objpair', 'split', 'regexp', 'conf', 'socket',
+             'adup', 'ldup', 'ddup', 'avdup', 'amdup']     # dup of empty and of filled containers
 
 
 class Sim:
